@@ -25,6 +25,13 @@ CHECKS = {
  'C07': dict(sec='3/C07', tech='TLC on Sampler.tla with a normalising VIEW (all histories of any length) + behaviours replayed into the real prior_combinations_sample + SamplerTrace validation of recorded pipeline runs',
              text='Sampler.tla models the process-global evaluation counter and one action per sampler call; Fair, ExactlyCap, LeastFirst, CountsArePicks are model-checked for every history (the VIEW subtracts the minimum count, making the unbounded counter finite), two-client and duplicate-key lists included; every behaviour of 3-4 calls is replayed through the real function comparing returned list and whole counter; sampler calls recorded in real multi-batch runs (both call sites, caps below/above the list) are validated by SamplerTrace.tla, which also checks the reported counts per combination.',
              note='list sizes <= 7, caps <= size+1; recorded runs use 6-20 batches of 40 rows; negative control: reversed returned list is rejected'),
+
+ 'C06': dict(sec='3/C06', tech='TLC on RankGraph.tla (code-shaped pair enumeration vs SpecPairs, cap, mirror) + replay of every configuration into the real get_combinations_from_columns/mixed_rank_graph + TraceRankGraph validation of seeded runs',
+             text='RankGraph.tla models Enumerate/ClampCap/Sample/Shuffle/Constant/pool/Mirror; EnumerationIsSpec, PairsExact, BothOrientations, ConstantOnce, NoForeignColumn, RelOnlyWithLabel are model-checked for every ordered column selection, mode, heuristic kind and cap over two batches; every configuration is replayed through the real functions and seeded configurations (up to 40/150 columns, adversarial names) are validated by TraceRankGraph.tla.',
+             note='column universe of 5 names (<=4 chosen) in the exhaustive part; pair multiplicity unconstrained'),
+ 'C09': dict(sec='3/C09', tech='TLC on the pool sub-machine of RankGraph.tla (all shuffles and worker interleavings) + every schedule executed by ScheduledPool under the real mixed_rank_graph + fresh-process CLI runs with the real pathos pool',
+             text='ScheduleIndependent/ResultsComplete are model-checked over every shuffle permutation and Take/Finish interleaving (amap and uimap variants); each TLC schedule is replayed into the real code and compared bit for bit with the reference; the real CLI is run in fresh interpreters with different pool sizes, repetitions and hash seeds over several flag sets and the outputs compared as sorted row sets.',
+             note='pool sizes in CLI runs: quick {1,3}, thorough {1,2,4,8,16}; OS scheduling of the real pool is sampled, not enumerated'),
 }
 
 checks = []
